@@ -227,7 +227,7 @@ def parse_cpp_function(ctoks, name, what):
 
 # ------------------------------------------------------------------ the lambda
 
-def single_lambda(body, what):
+def single_lambda(body, what, resolver=None):
     """body tokens of start(): exactly `m_thread = std::thread ( <lambda> ) ;` -> (capture tokens, mutable?, lambda body tokens)"""
     tt = texts(body)
     head = ["m_thread", "=", "std", "::", "thread", "("]
@@ -263,6 +263,34 @@ def single_lambda(body, what):
     if texts(body[close + 1:]) != [";"]:
         raise TranslateError("%s: statements other than the std::thread assignment: %s" % (what, txt(body[close + 1:])))
     arg = body[len(head):close]
+    if texts(arg[:3]) == ["&", "Thread", "::"] and resolver is not None:
+        # std::thread(&Thread::NAME, this, a, …): the new thread runs this->NAME(a, …) on DECAYED COPIES of `this` and the
+        # arguments — the same as the closure [this, a, …] { <body of NAME with its parameters renamed to a, …> }
+        parts = split_top(arg, ",")
+        if len(texts(parts[0])) != 4 or len(parts) < 2 or texts(parts[1]) != ["this"]:
+            raise TranslateError("%s: unsupported member-function form of std::thread: %s" % (what, txt(arg)))
+        actuals = []
+        for a in parts[2:]:
+            if len(a) != 1 or a[0][0] != "id":
+                raise TranslateError("%s: argument of the thread entry is not a plain name (std::ref, expressions are not modelled): %s" % (what, txt(a)))
+            actuals.append(a[0])
+        mparams, mbody = resolver(parts[0][3][1])
+        formals = []
+        for f in (split_top(mparams, ",") if mparams else []):
+            ft = texts(f)
+            if "&" in ft or "&&" in ft or "..." in ft or not f or f[-1][0] != "id":
+                raise TranslateError("%s: entry function parameter `%s` is not taken by value" % (what, " ".join(ft)))
+            formals.append(f[-1][1])
+        if len(formals) != len(actuals):
+            raise TranslateError("%s: entry function takes %d parameters, std::thread passes %d" % (what, len(formals), len(actuals)))
+        ren = dict(zip(formals, actuals))
+        if any(t in ("[",) for t in texts(mbody)):
+            raise TranslateError("%s: lambda / subscript inside the entry function" % what)
+        lbody = [ren[t] if k == "id" and t in ren else (k, t) for k, t in mbody]
+        caps = [("id", "this")]
+        for a in actuals:
+            caps += [("op", ","), a]
+        return caps, False, lbody
     if not arg or arg[0][1] != "[":
         raise TranslateError("%s: the argument of std::thread is not a lambda expression: %s" % (what, txt(arg[:10])))
     rb = match(arg, 0)
@@ -401,8 +429,8 @@ def entity_mode(entity, name, caps, uses, what):
     raise TranslateError("%s: `%s` is used by the thread body but not captured by %s (ill-formed)" % (what, name, caps["text"]))
 
 
-def analyse_lambda(fn_body, what, kind, callable_name, pack_name, callable_type, args_type):
-    caps_t, mutable, lbody = single_lambda(fn_body, what)
+def analyse_lambda(fn_body, what, kind, callable_name, pack_name, callable_type, args_type, resolver=None):
+    caps_t, mutable, lbody = single_lambda(fn_body, what, resolver)
     caps = parse_captures(caps_t, what, callable_name, pack_name, callable_type)
     use_name = caps["alias"] or callable_name
     stmts, uses = classify_body(lbody, what, kind, use_name, pack_name, args_type)
@@ -435,7 +463,10 @@ def parse_repo(repo):
     p = texts(params)
     if len(p) != 3 or p[0] != "Runnable" or p[1] != "*" or not re.match(r"[A-Za-z_]\w*$", p[2]):
         raise TranslateError("Thread.cpp start(): parameter is not `Runnable *<name>`: %s" % " ".join(p))
-    runn = analyse_lambda(body, "Thread.cpp start(Runnable*)", "runnable", p[2], None, None, None)
+    def resolver(name):
+        mp, mb, _ = parse_cpp_function(ctoks, name, "Thread.cpp %s()" % name)
+        return mp, mb
+    runn = analyse_lambda(body, "Thread.cpp start(Runnable*)", "runnable", p[2], None, None, None, resolver)
     # join / isFinished / constructor shapes
     _, jbody, _ = parse_cpp_function(ctoks, "join", "Thread.cpp join()")
     _, fbody, _ = parse_cpp_function(ctoks, "isFinished", "Thread.cpp isFinished()")
